@@ -618,6 +618,19 @@ func VerifC19ModelBlocking() {
 		c.handleMoveError, c.handleAskError = false, false
 		verifCover(true, "model.blocking.redirects-not-handled")
 	}
+	if verifChoose("warmpool", 2) == 1 {
+		// every node's pool holds two idle connections, as earlier concurrent use leaves them behind
+		for _, n := range c.nodes {
+			c1, e1 := n.getConn()
+			c2, e2 := n.getConn()
+			if e1 != nil || e2 != nil {
+				verifUnsupported("cannot open two connections to a node")
+			}
+			n.releaseConn(c1)
+			n.releaseConn(c2)
+		}
+		verifCover(true, "model.blocking.warm-pool")
+	}
 	verifPrepare(c)
 	bs := verifScenario(verifParam("MNC", 2), 3, false)
 	single := verifChoose("api", 2) == 0
